@@ -1,5 +1,4 @@
-(* P19b stage 3 - incremental builds, part 1: vocabulary.  Restrictions of this development: no rule has discovered
-   dependencies, no database is attached, the rule table is fixed, no earlier build was cancelled. *)
+(* P19b stage 3 - incremental builds, part 1: vocabulary.  Restrictions of this development: no database is attached, the rule table is fixed, no earlier build was cancelled. *)
 From LLB Require Import Engine.Rules Engine.Spec Engine.SpecInv1 Engine.Impl Engine.ImplProofs Engine.ImplProofsSticky Engine.ImplProofsInv
   Engine.ImplProofsInv2 Engine.ImplVal1.
 From Coq Require Import Arith Lia.
@@ -26,6 +25,10 @@ Definition Sreq (s : istate) (rq : sreq) : Prop :=
 Definition pending_for (s : istate) (k : key) : Prop :=
   (exists rq, In rq (is_toscan s) /\ sq_input rq = Some k) \/ (exists rq, In rq (is_inreq s) /\ iq_input rq = k).
 
+(* a dummy request (no task) for key x is still on its way: the request of the build, or the one issued for a discovered dependency *)
+Definition pending_dummy (s : istate) (x : key) : Prop := exists rq, Unrouted s rq /\ iq_task rq = None /\ iq_input rq = x.
+Definition mkd (x : key) : dep := mkDep x false false.
+
 Section Inc.
 Variable rules : key -> rule.
 Variable env : key -> N.
@@ -44,12 +47,20 @@ Definition concl (s : istate) (k : key) (v : value) : Prop :=
   let rl := rules k in
   let sl := map (stored s) (r_req rl) in
   let bk := branch_keys rl sl in
-  fst v = F k (r_sig rl) (map payload_of (sl ++ map (stored s) bk)) [] (snd v) /\
-  forall x, In x (r_req rl ++ bk) -> In (mkDep x false false) (deps s k).
+  fst v = F k (r_sig rl) (map payload_of (sl ++ map (stored s) bk)) (map (fun d => snd (payload_of (stored s d))) (r_disc rl)) (snd v) /\
+  forall x, In x (r_req rl ++ bk ++ r_disc rl) -> In (mkDep x false false) (deps s k).
 Definition rowok (s : istate) (k : key) : Prop :=
   exists v, stored s k = Some v /\ (r_obs (rules k) = false -> snd v = 0) /\
-            (forall d, In d (deps s k) -> In (d_key d) (requestable (rules k))) /\
+            (forall d, In d (deps s k) -> In (d_key d) (requestable (rules k) ++ r_disc (rules k))) /\
             (fresh s k -> concl s k v).
+
+Definition cstruct (s : istate) (k : key) : Prop :=
+  let rl := rules k in
+  let bk := branch_keys rl (map (stored s) (r_req rl)) in
+  (forall x, In x (r_req rl ++ bk) -> In (mkDep x false false) (deps s k) /\ curk s x) /\
+  (forall x, In x (r_disc rl) -> In (mkDep x false false) (deps s k)) /\
+  (forall d, In d (deps s k) -> In (d_key d) (requestable rl ++ r_disc rl) /\
+     (curk s (d_key d) \/ (In (d_key d) (r_disc rl) /\ (is_in_progress s (d_key d) = true \/ pending_dummy s (d_key d))))).
 
 (* ---------- tasks ---------- *)
 Record task_ok2 (s : istate) (t : key) (ti : tinfo) : Prop := {
@@ -66,7 +77,8 @@ Record task_ok2 (s : istate) (t : key) (ti : tinfo) : Prop := {
   (* a recorded dependency is complete, or its request is still outstanding *)
   k2_dcur : forall d, In d (deps s t) -> curk s (d_key d) \/ exists rq, Oreq2 s rq /\ iq_task rq = Some t /\ iq_input rq = d_key d;
   k2_dmen : forall d, In d (deps s t) -> In (d_key d) (requestable (rules t));
-  k2_nodisc : ti_disc ti = [];
+  k2_disc : (In t (is_fintasks s) -> ti_disc ti = map mkd (r_disc (rules t))) /\ (~ In t (is_fintasks s) -> ti_disc ti = []) /\
+            (ti_pending ti <> None -> ~ In t (is_fintasks s));
   k2_fsig : In t (is_fintasks s) -> res_sig (res_of s t) = r_sig (rules t)
 }.
 
@@ -88,8 +100,10 @@ Record BC (s : istate) : Prop := {
   b_le : forall k, bAt s k <= is_epoch s /\ cAt s k <= is_epoch s;
   b_be : forall k, bAt s k = is_epoch s -> kind_of s k = KComplete;
   b_sig : forall k, bAt s k <> 0 -> res_sig (res_of s k) = r_sig (rules k);
-  b_rows : forall k, idle s k -> bAt s k <> 0 -> rowok s k;
-  b_closed : forall k, curk s k -> forall d, In d (deps s k) -> curk s (d_key d)
+  b_rows : forall k, idle s k -> bAt s k <> 0 -> ~ curk s k -> rowok s k;
+  (* a rule completed in this build: its requested inputs are recorded and complete; its discovered dependencies are recorded, and
+     complete, in progress or about to be demanded *)
+  b_cstr : forall k, curk s k -> cstruct s k
 }.
 (* scanning.  [x]: a rule whose scan has just begun and whose requester has not yet been entered into its scan record *)
 Record BS (x : option key) (s : istate) : Prop := {
